@@ -635,6 +635,9 @@ def str_strip(interp, s, chars=None, left=True, right=True):
         if left and right:
             return s.strip(chars)
         return s.lstrip(chars) if left else s.rstrip(chars)
+    at0 = sym.atoms_of(s)
+    if len(at0) == 1 and at0[0][0] == 'opq' and sym.s_chars(s) is None:
+        return strip_opaque(interp, at0[0], chars, left, right)
     if chars is None:
         pred = is_ws
     else:
@@ -645,6 +648,9 @@ def str_strip(interp, s, chars=None, left=True, right=True):
     cps = sym.s_chars(s)
     if cps is not None:
         return sym.s_from_chars(_strip_chars(cps, pred, left, right))
+    at = sym.atoms_of(s)
+    if len(at) == 1 and at[0][0] == 'opq':
+        return strip_opaque(interp, at[0], chars, left, right)
     # rope with non-char atoms: strip literal/char atoms at the ends only when the inner atoms cannot be stripped
     atoms = list(sym.atoms_of(s))
 
@@ -669,6 +675,51 @@ def str_strip(interp, s, chars=None, left=True, right=True):
                 out = out[:-1]
         return sym.mk_rope(out)
     raise Unsupported('strip on rope with opaque atoms')
+
+
+_STRIP_CACHE = {}
+
+
+def strip_opaque(interp, atom, chars, left, right):
+    """Assumed contract of str.strip/lstrip/rstrip on a text of symbolic length: the result is the slice [a, b) where
+    everything before a (after b) is in the character set and the characters at a and b-1 are not."""
+    c = ctx()
+    _, T, lo, hi = atom
+    key = (T.name, sym._lin(lo), sym._lin(hi), id(chars) if not isinstance(chars, str) else chars, left, right)
+    ent = _STRIP_CACHE.get(key)
+    if ent is None:
+        k = len(_STRIP_CACHE)
+        ent = (sym.int_const('strip_a!%d' % k), sym.int_const('strip_b!%d' % k), chars)
+        _STRIP_CACHE[key] = ent
+    a, b_, _keepalive = ent
+
+    def member(j):
+        ch = sym.mk_rope([('opq', T, j, i_add(j, 1))])
+        if chars is None:
+            return is_ws(sym.s_chars(ch)[0])
+        r = v_in(interp, ch, chars)
+        if isinstance(r, Approx):
+            raise Unsupported('membership undecidable')
+        return r
+
+    def zb(x):
+        return z3.BoolVal(x) if isinstance(x, bool) else x
+    c.assume(i_cmp('<=', lo, a))
+    c.assume(i_cmp('<=', a, b_))
+    c.assume(i_cmp('<=', b_, hi))
+    j = sym.int_const('j!strip')
+    jz = Z(j)
+    if left:
+        c.assume(z3.ForAll([jz], z3.Implies(z3.And(jz >= Z(lo), jz < Z(a)), zb(member(j)))))
+        c.assume(b_or(i_cmp('==', a, hi), b_not(member(a))))
+    else:
+        c.assume(i_cmp('==', a, lo))
+    if right:
+        c.assume(z3.ForAll([jz], z3.Implies(z3.And(jz >= Z(b_), jz < Z(hi)), zb(member(j)))))
+        c.assume(b_or(i_cmp('==', b_, a), b_not(member(i_sub(b_, 1)))))
+    else:
+        c.assume(i_cmp('==', b_, hi))
+    return sym.mk_rope([('opq', T, a, b_)])
 
 
 def str_split(interp, s, sep=None, maxsplit=-1):
@@ -1477,6 +1528,13 @@ def str_method(interp, recv, name, args, kwargs):
             ls = sym.s_len(sub) if is_str(sub) else 0
             c.assume(i_cmp('>=', r, -1))
             c.assume(b_or(i_cmp('==', r, -1), i_cmp('<=', i_add(r, ls), n)))
+            if is_str(sub) and not isinstance(recv, UStr):
+                # a successful search returns a position where the text reads `sub`
+                here = sym.s_slice(recv, r, i_add(r, ls)) if False else None
+                at = sym.atoms_of(recv)
+                if len(at) == 1 and at[0][0] == 'opq':
+                    sl = sym.mk_rope([('opq', at[0][1], i_add(at[0][2], r), i_add(at[0][2], i_add(r, ls)))])
+                    c.assume(z3.Implies(Z(r) >= 0, str_term(sl) == str_term(sub)))
             if len(args) > 1 and args[1] is not None and is_int(args[1]):
                 st = args[1]
                 c.assume(b_or(i_cmp('==', r, -1), i_cmp('<', st, 0), i_cmp('>=', r, st)))
@@ -1486,11 +1544,46 @@ def str_method(interp, recv, name, args, kwargs):
         return r
     if name in PURE_STR_METHODS_BOOL:
         r = str_uf(interp, name, recv, *args, sort='bool')
+        if name in ('startswith', 'endswith') and len(args) == 1 and is_str(args[0]):
+            # the empty string is a prefix and a suffix of everything
+            e0 = i_cmp('==', sym.s_len(args[0]), 0)
+            if e0 is True:
+                return True
+            if not isinstance(e0, bool):
+                c.assume(z3.Implies(e0, r))
+            at = sym.atoms_of(recv) if is_str(recv) else ()
+            if len(at) == 1 and at[0][0] == 'opq':
+                la = sym.s_len(args[0])
+                if name == 'startswith':
+                    sl = sym.mk_rope([('opq', at[0][1], at[0][2], i_add(at[0][2], la))])
+                else:
+                    sl = sym.mk_rope([('opq', at[0][1], i_sub(at[0][3], la), at[0][3])])
+                le = i_cmp('<=', la, sym.s_len(recv))
+                c.assume(z3.Implies(z3.And(r, Z(le) if not isinstance(le, bool) else z3.BoolVal(le)),
+                                    str_term(sl) == str_term(args[0])))
         if name in ('startswith', 'endswith') and args and is_str(args[0]):
             c.assume(z3.Implies(r, Z(i_cmp('<=', sym.s_len(args[0]), sym.s_len(recv)))
                                 if not isinstance(i_cmp('<=', sym.s_len(args[0]), sym.s_len(recv)), bool)
                                 else z3.BoolVal(i_cmp('<=', sym.s_len(args[0]), sym.s_len(recv)))))
         return r
+    if name in ('partition', 'rpartition') and len(args) == 1 and is_str(args[0]) and is_str(recv):
+        # assumed contract: split at the first (last) occurrence found by find (rfind); not found: (s, '', '') for
+        # partition and ('', '', s) for rpartition
+        sep = args[0]
+        if not c.truth(i_cmp('!=', sym.s_len(sep), 0)):
+            raise PyExc('ValueError', 'empty separator', True)
+        i = str_method(interp, recv, 'find' if name == 'partition' else 'rfind', [sep], {})
+        if c.truth(i_cmp('<', i, 0)):
+            return (recv, '', '') if name == 'partition' else ('', '', recv)
+        return (sym.s_slice(recv, 0, i), sep, sym.s_slice(recv, i_add(i, sym.s_len(sep)), None))
+    if name == 'removeprefix' and len(args) == 1 and is_str(args[0]) and is_str(recv):
+        if interp.truth(str_method(interp, recv, 'startswith', [args[0]], {})):
+            return sym.s_slice(recv, sym.s_len(args[0]), None)
+        return recv
+    if name == 'removesuffix' and len(args) == 1 and is_str(args[0]) and is_str(recv):
+        if c.truth(i_cmp('!=', sym.s_len(args[0]), 0)) and interp.truth(str_method(interp, recv, 'endswith', [args[0]], {})):
+            return sym.s_slice(recv, 0, i_sub(sym.s_len(recv), sym.s_len(args[0])))
+        return recv
     if name in PURE_STR_METHODS_STR:
         return str_uf(interp, name, recv, *args, sort='str')
     raise Unsupported('str.%s on symbolic string' % name)
